@@ -17,7 +17,7 @@ def sh(cmd, timeout=1200):
 
 def demo_cmd(path):
     if path.endswith(".sh"):
-        return "timeout -s KILL 300 sh out/%s" % os.path.basename(path)
+        return "timeout -s KILL 300 bash out/%s" % os.path.basename(path)
     src = open(path).read()
     lines = [l.strip().lstrip("*#/ ").rstrip() for l in src.splitlines()[:60]]
     for i, line in enumerate(lines):
